@@ -492,13 +492,15 @@ def fold_filter_lemma():
     P = lambda kk: KWL(s, E, Q9.CNT(s, n, x, kk)) == KWS(s, n, kk)
     out = []
     for nm, hyps, goal in (("base", defs, P(0)), ("step", defs + [0 <= k, k < s.nkids(n), P(k)], P(k + 1))):
+        t0 = time.time()
+        vac = z3.Solver()
+        vac.set("timeout", 10000)
+        vac.add(*hyps)
         sol = z3.Solver()
         sol.set("timeout", 10000)
         sol.add(*hyps)
         sol.add(z3.Not(goal))
-        t0 = time.time()
-        r = sol.check()
-        out.append((nm, r == z3.unsat, time.time() - t0))
+        out.append((nm, vac.check() == z3.sat and sol.check() == z3.unsat, time.time() - t0))      # hypotheses satisfiable (not vacuous) and goal entailed
     return out
 
 
